@@ -279,3 +279,33 @@ Definition cycle_writes (p : pstep) (a : ain) : Prop := p_patched p = apply_rv a
 Theorem cycle_reports_its_last_write : forall p a, cycle_writes p a ->
   p_patched p = last (apply_responses a) None.
 Proof. intros p a H. rewrite H. apply apply_reports_last_write. Qed.
+
+(* ---------- how the processor's wait can end ---------- *)
+(* If the gate waits at all (with time left), it is left either by stream_pressure — then the state is NOT taken
+   for consistent: no change handlers — or exactly at consistency_time.  No other delay (daemon/timer re-checks
+   returned by process_spawning_cause, handler delays) is an input of `gate`, so none can end it: gate_case_sp
+   computes the same wait for every list of spawning delays. *)
+Theorem wait_ends_by_pressure_or_deadline : forall g ct, g_ctime g = Some ct -> o_slept (gate g) = true ->
+  g_now g < ct ->
+  (exists tp, g_press g = Some tp /\ tp < ct /\ o_until (gate g) = Z.max (g_now g) tp /\
+              (g_required g = true -> o_go (gate g) = false))
+  \/ (o_until (gate g) = ct /\ (forall tp, g_press g = Some tp -> ct <= tp)).
+Proof.
+  intros g ct E S L. unfold gate in *. cbn [o_slept o_until o_go] in *. rewrite E in *. rewrite S.
+  assert (D : (ct - g_now g <=? 0) = false) by (apply Z.leb_gt; lia). rewrite D.
+  destruct (g_press g) as [tp|].
+  - destruct (tp <? ct) eqn:Q.
+    + left. exists tp. apply Z.ltb_lt in Q. repeat split; auto. intros R. rewrite R. reflexivity.
+    + right. apply Z.ltb_ge in Q. split; [reflexivity|]. intros tp' H. injection H as <-. exact Q.
+  - right. split; [reflexivity|]. intros tp H. discriminate.
+Qed.
+
+Theorem wait_ignores_other_delays : forall d1 d2 c go m b o ct pie low now press,
+  match gate_case_sp d1 c go m b o ct pie low now press, gate_case_sp d2 c go m b o ct pie low now press with
+  | (s1, u1, r1, m1, _), (s2, u2, r2, m2, _) => s1 = s2 /\ u1 = u2 /\ r1 = r2 /\ m1 = m2
+  end.
+Proof. intros. unfold gate_case_sp. repeat split. Qed.
+
+Example ex_wait_deadline : let g := mkG true false (Some 124) true true 100 None in
+  o_slept (gate g) = true /\ o_until (gate g) = 124 /\ o_go (gate g) = true.
+Proof. vm_compute. repeat split. Qed.
